@@ -129,7 +129,7 @@ static uint8_t *make_seed(const args_t *a, rng_t *r, long c, size_t *len, int *v
 
 static void case_mut(const args_t *a, long c, rng_t *r)
 {
-	size_t len, prefix; int version; char desc[400], det[200];
+	size_t len, prefix; int version; char desc[400], det[400];
 	snprintf(g_path, sizeof g_path, "%s/c19-%ld.bin", a->workdir, c);
 	uint8_t *seed = make_seed(a, r, c, &len, &version, &prefix, desc, sizeof desc);
 	if (!seed) { inconclusive("no seed"); return; }
@@ -191,6 +191,47 @@ static void case_mut(const args_t *a, long c, rng_t *r)
 		/* and with the index offset re-pointed inside / just outside what is left */
 		uint64_t offs[] = {0, keep > 13 ? keep - 13 : 0, keep, keep + 1};
 		for (int q = 0; q < 4; q++) { rd_put64(b + keep, offs[q]); snprintf(det, sizeof det, "last %zu bytes kept, index offset <- %" PRIu64, keep, offs[q]); try_bytes(b, keep + 512, "head-cut-repointed", det); }
+	}
+	/* (6) forgeries that keep the redundant fields consistent with each other: a reader that validates one untrusted
+	 *     field against another (instead of against the mapping) accepts these */
+	{
+		uint64_t set[96]; size_t ns; { const uint64_t *t = value_set(0, len, &ns); memcpy(set, t, ns * sizeof set[0]); }
+		for (size_t i = 0; i < ns; i++) {
+			/* (6a) index length prefix <- P, trailer bytes_index_block (and in half of them bytes_data_blocks) agree with it */
+			uint64_t P = set[i];
+			unsigned ll = 4;
+			memcpy(b, seed, len);
+			if (version == 2) { uint8_t t[10]; ll = rd_varint_put(t, P); if (ioff + ll > len - 512) continue; memcpy(b + ioff, t, ll); }
+			else rd_put32(b + ioff, (uint32_t)P);
+			rd_put64(b + len - 512 + 8 * T_BYTES_INDEX, (version == 2 ? P : (uint32_t)P) + ll + 4);
+			if (i % 2) rd_put64(b + len - 512 + 8 * T_BYTES_DATA, ioff);
+			snprintf(det, sizeof det, "index length prefix <- %" PRIu64 " and trailer bytes_index_block made to agree", P);
+			try_bytes(b, len, "consistent-index-length", det);
+		}
+		for (size_t i = 0; i < ns; i++) {
+			/* (6b) index offset <- O, bytes_index_block <- file size - 512 - O (mod 2^64): the "exact layout" equation holds */
+			uint64_t O = set[i];
+			memcpy(b, seed, len);
+			rd_put64(b + len - 512 + 8 * T_INDEX_OFF, O);
+			rd_put64(b + len - 512 + 8 * T_BYTES_INDEX, (uint64_t)len - 512 - O);
+			if (i % 2) rd_put64(b + len - 512 + 8 * T_BYTES_DATA, O);
+			snprintf(det, sizeof det, "index offset <- %" PRIu64 " and bytes_index_block <- size - 512 - offset", O);
+			try_bytes(b, len, "consistent-index-offset", det);
+		}
+		/* (6c) random pairs / triples of (trailer field | length prefix) x value set */
+		int npairs = a->thorough ? 600 : 150;
+		for (int q = 0; q < npairs; q++) {
+			memcpy(b, seed, len);
+			int k = 2 + (int)rndn(r, 2), o = 0;
+			for (int j = 0; j < k; j++) {
+				int f = (int)rndn(r, 10); uint64_t val = set[rndn(r, (uint32_t)ns)];
+				uint64_t cur_ioff = rd_le64(b + len - 512);
+				if (f < 9) rd_put64(b + len - 512 + 8 * f, val);
+				else if (cur_ioff < len - 512 - 10) { if (version == 2) { uint8_t t[10]; unsigned n = rd_varint_put(t, val); memcpy(b + cur_ioff, t, n); } else rd_put32(b + cur_ioff, (uint32_t)val); }
+				if ((size_t)o < sizeof det - 1) o += snprintf(det + o, sizeof det - o, "%s%s <- %" PRIu64, j ? ", " : "", f < 9 ? (const char *[]){"index_offset", "block_size", "compression", "entries", "blocks", "bytes_data", "bytes_index", "bytes_keys", "bytes_values"}[f] : "index length prefix", val);
+			}
+			try_bytes(b, len, "multi-field", det);
+		}
 	}
 	STAT("mut.seeds");
 	statf(1, "mut.seeds.v%d", version);
